@@ -184,3 +184,5 @@ add('C19', 'benign', L, '  truncation_mask = 1 - truncation', '''  rewards, valu
 add('C07', 'benign', W, '    return jax.vmap(self.env.reset)(rng)', '    return jax.vmap(lambda r: self.env.reset(r))(rng)', 'vmap of a lambda instead of the bound method')
 add('C16', 'benign', 'brax/envs/ant.py', '    rng, rng1, rng2 = jax.random.split(rng, 3)', '''    keys = jax.random.split(rng, 3)
     rng, rng1, rng2 = keys[0], keys[1], keys[2]''', 'split result indexed instead of unpacked')
+add('C13', 'benign', J, '((cpos != 0).any() or (cquat != np.array([1.0, 0.0, 0.0, 0.0])).any())', '(not (np.allclose(cpos, 0) and np.allclose(cquat, [1.0, 0.0, 0.0, 0.0])))', 'guard spelled with allclose and De Morgan')
+add('C13', 'benign', J, '((cpos != 0).any() or (cquat != np.array([1.0, 0.0, 0.0, 0.0])).any())', '(np.any(cpos != 0) or np.any(cquat != np.array([1.0, 0.0, 0.0, 0.0])))', 'guard spelled with np.any')
